@@ -60,7 +60,10 @@ def write_inputs(d, sc):
     for fi, g in enumerate(groups):
         us, ts = zip(*[fields(k + j) for j in range(len(g))])
         k += len(g)
-        rf.write_roms(d / f"f_{fi:03d}.nc", imax=imax, jmax=jmax, N=N, times=g, u=np.concatenate(us), extra={"temp": np.concatenate(ts)}, h=100.0)
+        # a shallow bank downstream: particles keep their depth when they drift over it (deeper than the local bottom)
+        hh = np.full((jmax, imax), 100.0)
+        hh[:, 6:] = 15.0
+        rf.write_roms(d / f"f_{fi:03d}.nc", imax=imax, jmax=jmax, N=N, times=g, u=np.concatenate(us), extra={"temp": np.concatenate(ts)}, h=hh)
     rf.write_release(d / "r.rls", sc["rows"])
 
 
